@@ -6,7 +6,7 @@ import Mathlib.Tactic.FieldSimp
 import Mathlib.Tactic.Linarith
 
 namespace ThermoVerif.Unifac
-open Transc
+open Transc Filter Topology
 
 /-- The scalar instance used in the proofs. -/
 noncomputable instance instTranscReal : Transc ℝ where
@@ -704,4 +704,113 @@ theorem runCalls_spec (kind : Kind) (tb : Tables α) (inter : Nat → Nat → Na
       | seq v => rfl
 
 end world
+theorem continuousAt_sumN {n : Nat} {f : (ℕ → ℝ) → ℕ → ℝ} {p : ℕ → ℝ}
+    (h : ∀ j, j < n → ContinuousAt (fun xs => f xs j) p) : ContinuousAt (fun xs => sumN n (f xs)) p := by
+  induction n with
+  | zero => exact continuousAt_const
+  | succ n ih =>
+    simp only [sumN]
+    exact (ih (fun j hj => h j (Nat.lt_succ_of_lt hj))).add (h n (Nat.lt_succ_self n))
+
+theorem continuousAt_coord (j : ℕ) (p : ℕ → ℝ) : ContinuousAt (fun xs : ℕ → ℝ => xs j) p :=
+  (continuous_apply j).continuousAt
+
+theorem exists_pos_of_sumN_pos {n : Nat} {f : Nat → ℝ} (h : 0 < sumN n f) : ∃ k, k < n ∧ 0 < f k := by
+  by_contra hc
+  simp only [not_exists, not_and, not_lt] at hc
+  have : sumN n f ≤ 0 := by
+    rw [sumN_eq_sum]; exact Finset.sum_nonpos (fun i hi => hc i (Finset.mem_range.mp hi))
+  linarith
+
+theorem lgcS_continuousAt (kind : Kind) {nC i : Nat} (hi : i < nC) (qs rs : Nat → ℝ)
+    (hq : 0 < qs i) (hr : 0 < rs i) :
+    ContinuousAt (fun xs : ℕ → ℝ => lgcS kind nC qs rs xs i) (e i) := by
+  have hp : 0 < rs i ^ ((3:ℝ)/4) := Real.rpow_pos_of_pos hr _
+  have hrn : ContinuousAt (fun xs : ℕ → ℝ => sumN nC fun j => xs j * rs j) (e i) :=
+    continuousAt_sumN (fun j _ => (continuousAt_coord j _).mul continuousAt_const)
+  have hqn : ContinuousAt (fun xs : ℕ → ℝ => sumN nC fun j => xs j * qs j) (e i) :=
+    continuousAt_sumN (fun j _ => (continuousAt_coord j _).mul continuousAt_const)
+  have hpn : ContinuousAt (fun xs : ℕ → ℝ => sumN nC fun j => rs j ^ ((3:ℝ)/4) * xs j) (e i) :=
+    continuousAt_sumN (fun j _ => continuousAt_const.mul (continuousAt_coord j _))
+  have vr : (sumN nC fun j => e i j * rs j) = rs i := by simp [e, sumN_ite hi]
+  have vq : (sumN nC fun j => e i j * qs j) = qs i := by simp [e, sumN_ite hi]
+  have vp : (sumN nC fun j => rs j ^ ((3:ℝ)/4) * e i j) = rs i ^ ((3:ℝ)/4) := by simp [e, sumN_ite hi]
+  have hV : ContinuousAt (fun xs : ℕ → ℝ => rs i / sumN nC fun j => xs j * rs j) (e i) :=
+    continuousAt_const.div hrn (by rw [vr]; exact hr.ne')
+  have hF : ContinuousAt (fun xs : ℕ → ℝ => qs i / sumN nC fun j => xs j * qs j) (e i) :=
+    continuousAt_const.div hqn (by rw [vq]; exact hq.ne')
+  have hVF : ContinuousAt (fun xs : ℕ → ℝ => (rs i / sumN nC fun j => xs j * rs j) / (qs i / sumN nC fun j => xs j * qs j)) (e i) :=
+    hV.div hF (by rw [vq, div_self hq.ne']; exact one_ne_zero)
+  have hlogV : ContinuousAt (fun xs : ℕ → ℝ => Real.log (rs i / sumN nC fun j => xs j * rs j)) (e i) :=
+    hV.log (by rw [vr, div_self hr.ne']; exact one_ne_zero)
+  have hlogVF : ContinuousAt (fun xs : ℕ → ℝ => Real.log ((rs i / sumN nC fun j => xs j * rs j) / (qs i / sumN nC fun j => xs j * qs j))) (e i) :=
+    hVF.log (by rw [vr, vq, div_self hr.ne', div_self hq.ne', div_self one_ne_zero]; exact one_ne_zero)
+  have hVp : ContinuousAt (fun xs : ℕ → ℝ => rs i ^ ((3:ℝ)/4) / sumN nC fun j => rs j ^ ((3:ℝ)/4) * xs j) (e i) :=
+    continuousAt_const.div hpn (by rw [vp]; exact hp.ne')
+  have hlogVp : ContinuousAt (fun xs : ℕ → ℝ => Real.log (rs i ^ ((3:ℝ)/4) / sumN nC fun j => rs j ^ ((3:ℝ)/4) * xs j)) (e i) :=
+    hVp.log (by rw [vp, div_self hp.ne']; exact one_ne_zero)
+  cases kind
+  · simp only [lgcS, log_real, ofNat_real]
+    exact (((continuousAt_const.sub hV).add hlogV).sub
+      (continuousAt_const.mul ((continuousAt_const.sub hVF).add hlogVF)))
+  · simp only [lgcS, log_real, ofNat_real, rpow_real]
+    norm_num
+    exact (((continuousAt_const.sub hVp).add hlogVp).sub
+      (continuousAt_const.mul ((continuousAt_const.sub hVF).add hlogVF)))
+
+section limit
+variable {nC nG : Nat} {cg : Nat → Nat → ℝ} {Qs Rs : Nat → ℝ} (index : Nat → Nat)
+  (wf : WF nC nG cg Qs Rs)
+include wf
+
+omit index in
+theorem thetaS_continuousAt {i : Nat} (hi : i < nC) (k : Nat) :
+    ContinuousAt (fun xs : ℕ → ℝ => thetaS nC nG cg Qs xs k) (e i) := by
+  have hwc : ∀ m, ContinuousAt (fun xs : ℕ → ℝ => sumN nC fun a => cg a m * xs a) (e i) :=
+    fun m => continuousAt_sumN (fun a _ => continuousAt_const.mul (continuousAt_coord a _))
+  have htot : ContinuousAt (fun xs : ℕ → ℝ => sumN nG fun m => Qs m * sumN nC fun a => cg a m * xs a) (e i) :=
+    continuousAt_sumN (fun m _ => continuousAt_const.mul (hwc m))
+  have hv : (sumN nG fun m => Qs m * sumN nC fun a => cg a m * e i a) = sumN nG fun m => Qs m * cg i m := by
+    apply sumN_congr; intro m _; simp [e, sumN_ite hi]
+  unfold thetaS
+  exact (continuousAt_const.mul (hwc k)).div htot (by rw [hv]; exact (denom_pos wf hi).ne')
+
+theorem sum1S_vertex_pos {psis : Nat → Nat → ℝ} (hpsi : ∀ k m, 0 < psis k m) {i : Nat} (hi : i < nC) (k : Nat) :
+    0 < sum1S nG psis ((build nC nG index cg Qs Rs).cQ i) k := by
+  obtain ⟨m, hm, hpos⟩ := exists_pos_of_sumN_pos (denom_pos wf hi)
+  have hc : 0 < (build nC nG index cg Qs Rs).cQ i m := by
+    simp only [build]; exact div_pos hpos (denom_pos wf hi)
+  unfold sum1S
+  exact sumN_pos_of (k := m) (fun a ha => mul_nonneg (hpsi k a).le (cQ_nonneg index wf hi ha)) hm
+    (mul_pos (hpsi k m) hc)
+
+/-- **pure_limit, as a limit.**  The coefficient of chemical `i` computed by the kernels tends to
+one as the (sub-)composition tends to the vertex `e_i`, from any direction (no sign or
+normalisation assumed on the approaching compositions). -/
+theorem gammaSubS_tendsto (kind : Kind) (inter : Nat → Nat → Nat → ℝ) (T : ℝ) {i : Nat} (hi : i < nC) :
+    Tendsto (fun xs : ℕ → ℝ => gammaSubS kind (build nC nG index cg Qs Rs) inter T xs i) (𝓝 (e i)) (𝓝 1) := by
+  have hpsi := psi_pos kind T inter
+  have hθ := fun k => thetaS_continuousAt wf hi k
+  have hθv : thetaS nC nG cg Qs (e i) = (build nC nG index cg Qs Rs).cQ i := thetaS_vertex index hi
+  have hs1 : ∀ k, ContinuousAt
+      (fun xs : ℕ → ℝ => sum1S nG (psi kind T inter) (thetaS nC nG cg Qs xs) k) (e i) := by
+    intro k; unfold sum1S
+    exact continuousAt_sumN (fun m _ => continuousAt_const.mul (hθ m))
+  have hs1v : ∀ k, sum1S nG (psi kind T inter) (thetaS nC nG cg Qs (e i)) k ≠ 0 := by
+    intro k; rw [hθv]; exact (sum1S_vertex_pos index wf hpsi hi k).ne'
+  have hlgg : ∀ m, ContinuousAt
+      (fun xs : ℕ → ℝ => lggS nG Qs (psi kind T inter) (thetaS nC nG cg Qs xs) m) (e i) := by
+    intro m; unfold lggS
+    refine continuousAt_const.mul (((continuousAt_const.sub ((hs1 m).log (hs1v m))).add ?_))
+    exact (continuousAt_sumN (fun k _ => ((continuousAt_const.div (hs1 k) (hs1v k)).mul (hθ k)))).neg
+  have hc : ContinuousAt
+      (fun xs : ℕ → ℝ => gammaSubS kind (build nC nG index cg Qs Rs) inter T xs i) (e i) := by
+    unfold gammaSubS groupGammaS
+    refine Real.continuous_exp.continuousAt.comp ?_
+    refine (lgcS_continuousAt kind hi _ _ (wf.q_pos i hi) (wf.r_pos i hi)).add ?_
+    exact continuousAt_sumN (fun m _ => ((hlgg m).sub continuousAt_const).mul continuousAt_const)
+  have := hc.tendsto
+  rwa [gammaSubS_vertex index wf kind inter T hi] at this
+
+end limit
 end ThermoVerif.Unifac
